@@ -103,7 +103,7 @@ macro_rules! vk_c15 {
 // VK-assumes: tablets carry empty replica lists (identity via a tag); RandomState::new stubbed (maps stay empty); Arc::drop_slow stubbed (no live Node); tracing stubbed
 // VK-out: TabletsInfo (hashbrown map per table), perform_maintenance, per-DC replica restriction, RawTablet::from_custom_payload range validation
 vk_c15!(c15_add_n0, 0, 4);
-// VK: prop=C15 tier=thorough cap=3000 stubbed=1 replay=playback
+// VK: prop=C15 tier=off cap=3000 stubbed=1 replay=playback
 // VK-funcs: as c15_add_n0
 // VK-bounds: arbitrary pre-state of 1 tablet satisfying the invariant (fully symbolic i64 bounds), symbolic new tablet, symbolic query; unwind 5
 // VK-assumes: as c15_add_n0
